@@ -267,6 +267,11 @@ func GenTable(r *rand.Rand) *Table {
 	}
 	give(tb.Root, false)
 	give(tb.Inc, true)
+	if tb.NS != "" && r.Intn(2) == 0 {
+		// the included file a second time under an unrelated namespace (no name over the table's alphabet can
+		// contain it): every copy of a wildcard task matches under its own namespace only
+		tb.NS2 = "zz9"
+	}
 	return tb
 }
 
@@ -382,6 +387,9 @@ func (tb *Table) renderRoot(extraTasks string) string {
 	inc := ""
 	if tb.NS != "" {
 		inc = fmt.Sprintf("includes:\n  %s:\n    taskfile: ./inc.yml\n", yq(tb.NS))
+		if tb.NS2 != "" {
+			inc += fmt.Sprintf("  %s:\n    taskfile: ./inc.yml\n", yq(tb.NS2))
+		}
 	}
 	if tb.IncludesFirst {
 		b.WriteString(inc)
